@@ -130,6 +130,7 @@ class RunResult(object):
         self.trace = []
         self.errors = []
         self.swallowed = []
+        self.server_errors = []
         self.snap = None
         self.snaps = []
         self.sched_taken = []
@@ -225,6 +226,7 @@ def run_case(case, observe_each=False, full=False):
     res.trace = sim.W.trace
     res.errors = sim.W.errors
     res.swallowed = sim.W.swallowed
+    res.server_errors = sim.W.server_errors
     res.sched_taken = sched.taken
     res.sched_widths = sched.widths
     res.nonfifo = sched.nonfifo
